@@ -6,6 +6,8 @@ from ..spec import P, H2, le
 from . import c04, c05, c13
 
 EXPLANATION = """
+[ROUND-TRIP, sized symbolic fields] block_deser(block_ser(block_header(fields), txns)) for blocks of 1, 3 and 5 (thorough: 50, 253) legacy/segwit transactions built from arbitrary
+fixed-length fields returns the six header fields and the transactions in order, each with txid, wtxid, raw bytes and fields.
 [ABSTRACT, per list length] merkle_root is evaluated on lists of 1..40 and 63..66, 127..130 symbolic leaves (the loop's trip
 count depends only on the list length) and its term is compared with Bitcoin's merkle tree: pairwise SHA256d, last node of
 every odd level duplicated. [REGION+TERM] coinbase_txin over the height regions None, 0, 1..16, 17, 127/128, 255/256,
@@ -229,5 +231,7 @@ def run(ctx):
     c04.check_mine_block(ctx, "C15.5")
     c05.check_writer(ctx, "C15.6")
     c05.check_reader(ctx, "C15.6")
+    from . import rt
+    rt.check_block_roundtrip(ctx, "C15.7")
     c05.check_witness(ctx, "C15.6")
     c13.check_push_selection(ctx, "C15.6")
